@@ -89,6 +89,15 @@ fn judge(run: &mut Run, name: &str, class: &str, obs: &Obs, case: serde_json::Va
         run.outcome("model-unsatisfied(skipped)");
         return;
     }
+    if name.contains("/min-") {
+        // below the documented capacity: compilation may be refused (then there
+        // is nothing to prove); if it is NOT refused, completeness applies
+        if obs.direct.compile_err.is_some() && (obs.compressed.compile_err.is_some() || obs.compress_err.is_some()) {
+            run.outcome("below-capacity:compile-refused");
+            return;
+        }
+        run.outcome("below-capacity:compiled");
+    }
     run.nontrivial(fnv(name.as_bytes()) ^ obs.layout);
     let snap = obs.snap.as_ref().unwrap();
     let want_pis: Vec<Fe> = snap.public_inputs.iter().map(|(_, v)| *v).collect();
@@ -171,7 +180,9 @@ pub fn main(tier: Tier, replay: Option<serde_json::Value>) -> i32 {
             for (sn, sh) in shapes {
                 // capacities: minimal for all; the other two on the boundary sizes
                 let near = c + 6 >= (1 << k) - 1 && c + 6 <= (1 << k) + 1 || c == (1 << k) || c == (1 << k) - 1 || c == (1 << k) + 1;
-                let caps: Vec<&'static str> = if near || tier == Tier::Thorough { vec!["min", "min+1", "ample"] } else { vec!["min"] };
+                // capacities below the minimum may or may not compile; IF they compile,
+                // the statement still promises a working prover
+                let caps: Vec<&'static str> = if near || tier == Tier::Thorough { vec!["min", "min+1", "ample", "min-1", "min-3", "min-7"] } else { vec!["min", "min-2"] };
                 for cap in caps {
                     let label: Vec<u8> = if (c + sn.len()) % 2 == 0 { vec![] } else { b"nine-byte".to_vec() };
                     items.push(Sized { name: format!("size/c{}/{}/{}", c, sn, cap), c, shape: sh.clone(), cap, label });
@@ -188,6 +199,10 @@ pub fn main(tier: Tier, replay: Option<serde_json::Value>) -> i32 {
         let points = match it.cap {
             "min" => n + 7,
             "min+1" => n + 8,
+            "min-1" => n + 6,
+            "min-2" => n + 5,
+            "min-3" => n + 4,
+            "min-7" => n,
             _ => full.max_degree() + 1,
         };
         let pp = crate::setup::truncate_pp(&full, points);
